@@ -25,6 +25,7 @@ import r_sendrecv
 import r_encadmit
 import r_resdom
 import r_convidx
+import r_lwepair
 import r_rngprov
 import r_dispatch
 import r_range
@@ -512,6 +513,9 @@ def c09(facts, tier):
                  "invertibility, the convolution property.")
     r_range.run(facts, rep)
     r_family.run_ntt(facts, rep)
+    # the multi-polynomial / multi-component wrappers hand every component to the transform exactly once
+    n = r_family.run_poly(facts, rep, only=("ntt", "intt"))
+    rep.floor("R-FAMILY(poly)", "ntt/intt _p/_ps wrappers", n, 8)
     # root determinism (who-may-call + loop shape)
     R = "R-ROOT"
     rep.rule(R, "the random start of try_primitive_root is confined: it is called only from try_minimal_primitive_root, whose "
@@ -743,6 +747,7 @@ def c13(facts, tier):
     r_ladder.run_validate(facts, rep)
     r_ladder.run_chain(facts, rep)
     r_ladder.run_ident(facts, rep)
+    r_ladder.run_hashin(facts, rep)
     n_loops, _ = r_loop.run(facts, rep, scope_files={"src/context.rs", "src/modulus.rs", "src/encryption_parameters.rs"},
                             level_walk=False)
     return rep
@@ -765,7 +770,26 @@ def c10(facts, tier):
     return rep
 
 
+def c19(facts, tier):
+    rep = Report("C19", tier, facts,
+                 "R-LWEPAIR: extract_lwe keeps coefficient `term` of every RNS component of c0 and shifts c1 by 2N - term "
+                 "(0 for term 0); assemble_lwe stores residue i at index i*N (decided on symbolic index polynomials); "
+                 "R-REPSTATE on the BFV / CKKS / BGV projections of extraction, field trace, division by N and packing: the "
+                 "negacyclic shift and the butterfly merge run on coefficient-form data, the automorphism in the "
+                 "representation its scheme requires, nothing mixes representations, results leave with data matching "
+                 "their flag; R-LOOP: the trace / packing loops advance their counters.",
+                 "where coefficients land as a function of the runtime index, count and trace parameter (stride "
+                 "N/2^ceil(log2 k), multiplication by N/2^l, zeros elsewhere), that the generated automorphism key set "
+                 "covers the elements used, the CKKS error bound.")
+    r_lwepair.run(facts, rep)
+    ents = [p for p in facts.items if p.startswith("app::lwe::") and facts.items[p].get("vis") == "pub" and p in facts.hir]
+    repstate(facts, rep, ents, 40)
+    r_loop.run(facts, rep, {"src/app/lwe.rs"}, level_walk=False)
+    return rep
+
+
 CHECKS = {
+    "C19": c19,
     "C10": c10,
     "C01": c01,
     "C09": c09,
